@@ -267,7 +267,7 @@ class Gen:
         fin = [f"f{i}" for i in range(n_fin)]
         num = ["x", "y", "z"][:n_num]
         params = []
-        use_param = pf.get("params", r.random() < 0.3)
+        use_param = pf.get("params", r.random() < 0.15)
         sym_init = pf.get("sym_init", r.random() < 0.25)
         guard_kind = pf.get("guard", r.choice(["true", "true", "counter", "flag"]))
 
@@ -314,6 +314,21 @@ class Gen:
         body = self.block(depth=0, budget=r.randint(2, 4))
         # every finite variable is assigned somewhere at the top level of the body (otherwise it would be
         # a loop constant); draws mostly come first so that conditions are fresh
+        assigned = set()
+        def walk(ss):
+            for st in ss:
+                if st[0] in ("assign", "draw"):
+                    assigned.add(st[1])
+                elif st[0] == "simul":
+                    walk(st[1])
+                elif st[0] == "if":
+                    for b in st[2]:
+                        walk(b)
+                    walk(st[3])
+        walk(body)
+        for x in num:
+            if x not in assigned:
+                body.insert(r.randint(0, len(body)), self.num_update(x))
         for f in fin:
             upd = self.fin_update(f)
             if fkind[f] in ("bern", "cat", "dunif") and r.random() < 0.7:
